@@ -246,6 +246,21 @@ def check(case, acc=None):
                 return [('C11-read-changed-%s' % what, 'read round %d %r of path %s: before %r after %r' % (
                     rnd + 1, (spell, extras, upto), _path(case, d), snap[0 if what == 'encoding' else 1 if what == 'children' else 2],
                     now[0 if what == 'encoding' else 1 if what == 'children' else 2]))]
+        # ---- optionally the element at the head of the chain is now created by an explicit call (the reads above left
+        #      pending traversal elements behind): the write below must go INTO it, not create a second one
+        pre = case.get('precreate', 0)
+        if pre == 1 and case['root'] == 'message' and not fields:
+            parent = root
+            for g in groups:
+                parent = parent.add_group(g)
+            parent.add_segment(s)
+            materialised = True
+            if root.to_er7() != expected():
+                return [('C11-explicit-creation-encoding', 'add_segment(%s): %r' % (s, root.to_er7()))]
+        elif pre == 2 and d['cname'] and case['depth'] >= 2 and d['i'] not in fields:
+            target_seg = seg_proxy_or_el()
+            (target_seg[0] if isinstance(target_seg, core.ElementProxy) and len(target_seg) else target_seg).add_field(d['fname']) \
+                if (case['root'] != 'message' or len(target_seg)) else None
         # ---- the write
         val = lit.valid(d['leaf_dt'], case['val'])
         before_count = count(root)
@@ -301,7 +316,7 @@ def check(case, acc=None):
                 bad += trav(c, depth + 1)
             return bad
         left = trav(root)
-        if left and not out:
+        if left and not out and not case.get('precreate'):
             out.append(('C11-traversal-children-left-after-write', 'path %s: traversal indexes still hold %r' % (_path(case, d), left)))
         # second identical write
         l1, c1 = listing(root), count(root)
@@ -376,7 +391,7 @@ def cases(draw, versions, mcells):
             'ci': draw(st.integers(0, 30)), 'si': draw(st.integers(0, 12)), 'depth': draw(st.sampled_from([1, 2, 3, 3])),
             'pre': draw(st.lists(st.tuples(st.integers(0, 60), st.integers(0, 3)), max_size=2)),
             'reads': draw(st.lists(st.tuples(st.integers(0, 5), st.integers(0, 31), st.integers(0, 3)), min_size=1, max_size=3)),
-            'val': draw(st.integers(0, 3)), 'how': draw(st.integers(0, 5))}
+            'val': draw(st.integers(0, 3)), 'how': draw(st.integers(0, 5)), 'precreate': draw(st.sampled_from([0, 0, 1, 2]))}
     if m:
         case['m'] = m
     return case
